@@ -315,6 +315,14 @@ def _role_candidates(role, fn, loop):
     return out
 
 
+class ConsumerSignal(Exception):
+    """an exception / return / break of the body of a for-loop over a generator, on its way out through the generator's frames"""
+
+    def __init__(self, inner):
+        Exception.__init__(self, repr(inner))
+        self.inner = inner
+
+
 class LoopCtx:
     def __init__(self, engine, env, k, entry, phase='head', node=None):
         self.E = engine
@@ -1931,9 +1939,17 @@ class Engine:
                     self.exec_block(node.body, env)
                 except ContinueSig:
                     pass
+                except (PyExc, ReturnSig, BreakSig) as sig:
+                    # what the CONSUMER's loop body raises / returns / breaks does not pass through the generator's own
+                    # try / with / loops (the generator is simply left suspended at its yield): carried past its frames
+                    raise ConsumerSignal(sig)
                 return None
             try:
                 self.run_generator(it, on_yield)
+            except ConsumerSignal as cs:
+                if isinstance(cs.inner, BreakSig):
+                    return
+                raise cs.inner
             except BreakSig:
                 return
             self.exec_block(node.orelse, env)
